@@ -73,11 +73,44 @@ def run_case(case):
     return case, bad, len(queries) * 5
 
 
+def run_big_case(case):
+    """scale: a query file of more than 100000 rows in shuffled row order; -qId selects three molecules; the records must equal those of a run
+    on a file that physically holds only these three (reading must not depend on where in a big file a molecule's rows sit)"""
+    seed, mode = case
+    rnd = random.Random(seed)
+    refs, queries, truths = pl.gen_set(seed, weights=[3, 2, 1, 2, 1, 0], n_refs=2)
+    filler = []
+    for i in range(1500):
+        pos, x = [], rnd.randint(100, 3000)
+        for _ in range(rnd.randint(60, 80)):
+            pos.append(x)
+            x += rnd.randint(2000, 20000)
+        filler.append((5000 + i, pos[-1] + 100, pos))
+    sel = sorted(q[0] for q in queries[:3])
+    bad = []
+    try:
+        with time_limit(900):
+            big = run_variant(refs, queries + filler, mode, ['-qId'] + sel, shuffle=random.Random(seed + 2))
+            small = run_variant(refs, [q for q in queries if q[0] in sel], mode)
+        if big.error or small.error:
+            bad.append(('id_selection_equals_physically_restricted_files', dict(error=(big.error or small.error)[-300:])))
+        elif records(big) != records(small):
+            B, S = records(big), records(small)
+            diff = [k for k in set(B) | set(S) if B.get(k) != S.get(k)]
+            bad.append(('id_selection_equals_physically_restricted_files', dict(queries=sel, rows_in_query_file=sum(len(q[2]) + 1 for q in queries + filler),
+                                                                             differing=[list(k) for k in diff[:4]])))
+    except CaseTimeout:
+        bad.append(('terminates', None))
+    return (seed, 'big:' + mode), bad, 3
+
+
 def bounded(repo, tier, seed):
     n = 14 if tier == 'quick' else 200
     modes = ['best', 'all']
     cases = [(seed * 6151 + i, modes[i % 2]) for i in range(n)]
     res = pmap(run_case, cases, repo)
+    bigc = [(seed * 6151 + 901 + i, 'best') for i in range(2 if tier == 'quick' else 8)]
+    res = list(res) + list(pmap(run_big_case, bigc, repo))
     viol = {}
     tot = 0
     for case, bad, k in res:
@@ -87,12 +120,16 @@ def bounded(repo, tier, seed):
             viol.setdefault(key, dict(key=key, blame=RUN, input=dict(seed=case[0], mode=case[1]), observed=detail, required='C10 statement'))
     return result(tot, tot, "generated CMAP sets (2-3 references, 6-10 queries); the per-query records (all files of the mode) of a run on the full files are compared "
                             "with runs on (a) a random half of the queries and one or two (chimeric) queries alone, (b) shuffled query order, (c) shuffled rows inside both CMAP files, (d) permuted reference "
-                            "order, (e) -qId/-rId selection versus physically restricted files; evaluations = query x variant comparisons",
+                            "order, (e) -qId/-rId selection versus physically restricted files, (f) a query file of more than 100000 shuffled rows with -qId of three molecules; evaluations = query x variant comparisons",
                   [dict(seed=cases[0][0], mode=cases[0][1])], list(viol.values())[:5], exhaustive=False, bounds=f"{n} sets x 5 variants")
 
 
 def replay(repo, rp):
     from bcheck.common import use_repo
     use_repo(repo)
-    case, bad, _ = run_case((rp['input']['seed'], rp['input']['mode']))
+    mode = rp['input']['mode']
+    if mode.startswith('big:'):
+        case, bad, _ = run_big_case((rp['input']['seed'], mode.split(':')[1]))
+    else:
+        case, bad, _ = run_case((rp['input']['seed'], mode))
     return (not bad), bad[:3]
